@@ -213,7 +213,7 @@ Definition valid (c : csm S) (p : vec S) (a e : S) (o : opts S) : Prop :=
   major c = minor c /\ major c <> 0 /\ vdim p = major c /\
   (forall t0, o_t0 o = Some t0 -> vdim t0 = major c) /\
   (forall d, o_result_dim o = Some d -> d = major c) /\
-  ltb S a (zero S) = false /\ ltb S (one S) a = false /\ leb S e (zero S) = false /\
+  leb S (zero S) a = true /\ leb S a (one S) = true /\ ltb S (zero S) e = true /\
   (1 <= eff_freq o)%Z /\ (0 <= eff_max o)%Z /\ (1 <= eff_min o)%Z.
 
 Lemma compute_valid : forall fuel c p a e o, valid c p a e o ->
@@ -229,7 +229,7 @@ Proof.
   { destruct (o_t0 o) as [t0|] eqn:E; auto. rewrite (Ht0 t0 eq_refl), Nat.eqb_refl. reflexivity. }
   assert (E2 : match o_result_dim o with Some d => negb (d =? major c) | None => false end = false).
   { destruct (o_result_dim o) as [d|] eqn:E; auto. rewrite (Hrd d eq_refl), Nat.eqb_refl. reflexivity. }
-  rewrite E1, E2, Ha0, Ha1, He. cbn [orb].
+  rewrite E1, E2, Ha0, Ha1, He. cbn [orb andb negb].
   fold (eff_freq o). destruct (Z.ltb_spec (eff_freq o) 1); [lia|].
   fold (eff_max o). destruct (Z.ltb_spec (eff_max o) 0); [lia|].
   fold (eff_min o). destruct (Z.leb_spec (eff_min o) 0); [lia|].
@@ -249,13 +249,13 @@ Proof.
   destruct (negb (vdim p =? major c)
             || match o_t0 o with Some t0 => negb (vdim t0 =? major c) | None => false end
             || match o_result_dim o with Some d => negb (d =? major c) | None => false end) eqn:Ed; [eexists; reflexivity|].
-  destruct (ltb S a (zero S) || ltb S (one S) a) eqn:Ea; [eexists; reflexivity|].
-  destruct (leb S e (zero S)) eqn:Ee; [eexists; reflexivity|].
+  destruct (leb S (zero S) a && leb S a (one S)) eqn:Ea; cbn [negb]; [|eexists; reflexivity].
+  destruct (ltb S (zero S) e) eqn:Ee; cbn [negb]; [|eexists; reflexivity].
   fold (eff_freq o). destruct (Z.ltb_spec (eff_freq o) 1); [eexists; reflexivity|].
   fold (eff_max o). destruct (Z.ltb_spec (eff_max o) 0); [eexists; reflexivity|].
   fold (eff_min o). destruct (Z.leb_spec (eff_min o) 0); [eexists; reflexivity|].
   exfalso. apply Hnv. apply orb_false_iff in Ed. destruct Ed as [Ed Ed3]. apply orb_false_iff in Ed. destruct Ed as [Ed1 Ed2].
-  apply orb_false_iff in Ea. destruct Ea as [Ea0 Ea1].
+  apply andb_true_iff in Ea. destruct Ea as [Ea0 Ea1].
   apply negb_false_iff, Nat.eqb_eq in Ed1.
   unfold valid. repeat split; auto; try lia.
   - intros t0 Ht0. rewrite Ht0 in Ed2. apply negb_false_iff, Nat.eqb_eq in Ed2. auto.
